@@ -162,7 +162,7 @@ fn judge(c: &[usize], out: &str, width: usize, align: char, truncate: bool) -> R
 }
 
 pub fn run(tier: Tier, shard: Shard, stats: &mut Stats) {
-    let maxlen = if tier == Tier::Quick { 4 } else { 7 };
+    let maxlen = if tier == Tier::Quick { 5 } else { 7 };
     let all = contents(maxlen);
     let mut widths: Vec<usize> = (0..=12).collect();
     widths.extend([255, 65535]);
